@@ -94,6 +94,7 @@ func (w *_watcher) run() {
 	var curVersion string
 
 	var retry *time.Timer
+	var retrych <-chan time.Time
 
 mainloop:
 	for {
@@ -110,6 +111,7 @@ mainloop:
 			if retry != nil {
 				retry.Stop()
 				retry = nil
+				retrych = nil
 			}
 
 			session.stop()
@@ -120,10 +122,18 @@ mainloop:
 		case <-session.done():
 			w.log.Debugf("session done.  retrying version %v in %v", curVersion, watchRetryDelay)
 
+			// keep outch: the consumer holds it and it may contain undelivered events.
 			session.stop()
 			session = nullWatchSession{}
-			outch = nil
-			retry = w.scheduleRetry(w.resetch, curVersion)
+			retry = time.NewTimer(watchRetryDelay)
+			retrych = retry.C
+
+		case <-retrych:
+			w.log.Debugf("reconnecting at version %v", curVersion)
+
+			retry = nil
+			retrych = nil
+			session = newWatchSession(ctx, w.log, w.client, curVersion)
 
 		case evt := <-session.events():
 
@@ -150,13 +160,4 @@ mainloop:
 	if donech := session.done(); donech != nil {
 		<-donech
 	}
-}
-
-func (w *_watcher) scheduleRetry(ch chan string, vsn string) *time.Timer {
-	return time.AfterFunc(watchRetryDelay, func() {
-		select {
-		case ch <- vsn:
-		case <-w.lc.ShuttingDown():
-		}
-	})
 }
